@@ -466,3 +466,20 @@ Definition unit_cost_env : env :=
      e_secp := fun _ _ _ => SecpParseErr |}.
 Definition compute_prog : list op := [OPush 3; OCompute; OPush 1; OPop; OComputeEnd].
 
+
+(* --- with a flat price the gas counts the executed operations; pricing is monotone --- *)
+Lemma sum_costs_const E c l : (forall o, e_cost E o = c) -> sum_costs E l = c * zlen l.
+Proof.
+  intros Hc. unfold zlen. induction l as [|x l IH]; [rewrite sum_costs_nil; cbn; lia|].
+  rewrite sum_costs_cons, IH, Hc. cbn [length]. lia.
+Qed.
+
+Lemma exec_ops_gas_flat E c fuel ops limit v v' g tr :
+  (forall o, e_cost E o = c) -> exec_ops fuel E ops limit v = Ok (v', g, tr) -> g = c * zlen tr.
+Proof. intros Hc H. rewrite (exec_ops_gas _ _ _ _ _ _ _ _ H). apply sum_costs_const, Hc. Qed.
+
+Lemma sum_costs_mono E E' l : (forall o, e_cost E o <= e_cost E' o) -> sum_costs E l <= sum_costs E' l.
+Proof.
+  intros Hc. induction l as [|x l IH]; [rewrite !sum_costs_nil; lia|].
+  rewrite !sum_costs_cons. specialize (Hc x). lia.
+Qed.
